@@ -8,6 +8,12 @@ use jsonpath_rust::query::queryable::Queryable;
 use serde_json::Value;
 use std::borrow::Cow;
 use std::collections::HashMap;
+use std::sync::atomic::{AtomicBool, Ordering};
+
+/// Two faithful styles of the numeric accessors (the trait does not say which): serde-like, where
+/// `as_f64` answers for every number, and disjoint, where `as_f64` answers only for floats (and for
+/// integers that do not fit an i64) and `as_i64` for integers.  Every case runs under both.
+static DISJOINT: AtomicBool = AtomicBool::new(false);
 
 #[derive(Debug, Clone, PartialEq)]
 pub enum V {
@@ -111,8 +117,20 @@ impl Queryable for V {
     }
     fn as_f64(&self) -> Option<f64> {
         match self {
-            V::Int(i) => Some(*i as f64),
-            V::UInt(u) => Some(*u as f64),
+            V::Int(i) => {
+                if DISJOINT.load(Ordering::Relaxed) {
+                    None
+                } else {
+                    Some(*i as f64)
+                }
+            }
+            V::UInt(u) => {
+                if DISJOINT.load(Ordering::Relaxed) && i64::try_from(*u).is_ok() {
+                    None
+                } else {
+                    Some(*u as f64)
+                }
+            }
             V::Float(f) => Some(*f),
             _ => None,
         }
@@ -200,10 +218,28 @@ pub fn run_gen(ast: &str, doc: &str) -> Result<String, String> {
     index_v(&v, "$".to_string(), &mut index);
     let mut vindex = HashMap::new();
     crate::index_doc(&d, "$".to_string(), &mut vindex);
+    // the disjoint style first: its result must be the same as the serde-like one and as Value's
+    DISJOINT.store(true, Ordering::Relaxed);
+    let r2 = js_path_process(&q, &v).map(|rs| {
+        rs.into_iter()
+            .map(|r| {
+                let path = r.clone().path();
+                (r.val() as *const V as usize, path)
+            })
+            .collect::<Vec<_>>()
+    });
+    DISJOINT.store(false, Ordering::Relaxed);
     let rv = js_path_process(&q, &v);
     let rd = js_path_process(&q, &d);
     match (rv, rd) {
         (Ok(rv), Ok(rd)) => {
+            let styles_agree = match &r2 {
+                Ok(r2) => {
+                    r2.len() == rv.len()
+                        && r2.iter().zip(rv.iter()).all(|((a, p), r)| *a == (r.clone().val() as *const V as usize) && *p == r.clone().path())
+                }
+                Err(_) => false,
+            };
             let items: Vec<(String, String)> = rv
                 .into_iter()
                 .map(|r| {
@@ -226,7 +262,7 @@ pub fn run_gen(ast: &str, doc: &str) -> Result<String, String> {
                     )
                 })
                 .collect();
-            let same = items == ditems;
+            let same = items == ditems && styles_agree;
             Ok(format!(
                 "OK\t{}\tsame={}",
                 items.iter().map(|(l, p)| format!("{}|{}", l, cps(p))).collect::<Vec<_>>().join(" "),
